@@ -615,7 +615,7 @@ def r17_pushpath(repo, sink):
     f = repo.resolve(c, "push_data", "method")
     q = Sym("q")
 
-    def mk(n_prev=0, prev_file=False, static=False, exchanged=True, targets=True, n_pinged=1, n_exchanged=None, limit="auto"):
+    def mk(n_prev=0, prev_file=False, static=False, exchanged=True, targets=True, n_pinged=1, n_exchanged=None, limit="auto", ends_need_push=False):
         """An output as the real code leaves it: constructed (partial evaluation of the constructors), given its info by
         push_info, linked by add_target, registered end points by pinged, infos exchanged by get_info - then `n_prev` real
         publications.  No private attribute is named; the payloads of earlier publications are then replaced by stand-ins."""
@@ -633,7 +633,8 @@ def r17_pushpath(repo, sink):
         it.run(repo.resolve(c, "push_info", "method"), [own], self_obj=o)
         if targets:
             it.run(repo.resolve(c, "add_target", "method"), [Obj(label="t", markers={"IInput", "IAdapter"})], self_obj=o)
-            ends = [Obj(label=f"c{k}", markers={"IInput"}, fields={"name": f"c{k}"}) for k in range(n_pinged)]
+            ends = [Obj(label=f"c{k}", markers={"IInput"}, fields={"name": f"c{k}", "needs_push": ends_need_push, "needs_pull": not ends_need_push})
+                    for k in range(n_pinged)]
             for e in ends:
                 it.run(repo.resolve(c, "pinged", "method"), [e], self_obj=o)
             n_ex = n_pinged if (n_exchanged is None and exchanged) else (n_exchanged or 0)
@@ -707,6 +708,15 @@ def r17_pushpath(repo, sink):
           and o.fields["data"][-1] == (q, Sym("packed", Sym("prepared", Sym("payload"))))
           and time_of(o) == q and it.events[-1][1:] == (q, 2, q))
     cases.append(("publication", ok, f"{err} {it.events} data={o.fields['data']!r} time={time_of(o)!r}"))
+    # 7b a publication never releases history: only requests do (a notified consumer may fetch later - a push-based input that
+    # pulls after the notification, a buffering adapter behind a delay adapter - and none of the registered end points has pulled)
+    for push_ends in (False, True):
+        o = mk(n_prev=2, n_pinged=2, ends_need_push=push_ends)
+        err, it = run(o)
+        cases.append((f"publication-keeps-history:{'notified' if push_ends else 'pulling'}-consumers",
+                      err is None and len(o.fields["data"]) == 3 and not any(e[0] == "remove" for e in it.effects),
+                      f"{err}: after the third publication the history holds {len(o.fields['data'])} entries {o.fields['data']!r}; none of the {'push-notified ' if push_ends else ''}"
+                      "consumers has requested anything yet, all three publications may still be asked for"))
     # 7c a payload that is a dimensionless quantity is published as it is (prepare decides about units; fractions pushed to a
     # percent output are converted, lengths are refused)
     o = mk(n_prev=0)
@@ -786,6 +796,19 @@ def r17_pushpath(repo, sink):
 
 
 # =========================================================================== R18
+def _find_syms(v, op, acc=None):
+    acc = [] if acc is None else acc
+    if isinstance(v, Sym):
+        if v.op == op:
+            acc.append(v)
+        for a in v.args:
+            _find_syms(a, op, acc)
+    elif isinstance(v, (tuple, list)):
+        for a in v:
+            _find_syms(a, op, acc)
+    return acc
+
+
 class _ConvRec(ExchMixin, FinamInterp):
     def __init__(self, repo):
         super().__init__(repo)
@@ -829,6 +852,12 @@ class _ConvRec(ExchMixin, FinamInterp):
         if isinstance(c, Sym):
             return Sym("item", c, repr(k))
         return super().sym_item(c, k, node)
+
+    def iterate(self, v, node):
+        # iterating an array (or its magnitude) runs over the leading time axis
+        if isinstance(v, Sym) and (v.op in ("raw", "transformed") or (v.op == "attr" and v.args[1] == "magnitude")):
+            return [Sym("item", v, repr(i)) for i in range(self.n_time)]
+        return super().iterate(v, node)
 
     def ext_call(self, name, args, kwargs, node):
         short = name.split(".")[-1]
@@ -890,6 +919,11 @@ def r18_pullpath(repo, sink):
             why = "unit conversion runs on the untransformed data"
         elif "raw" not in repr(tu[0][1]):
             why = "the converted data is not what the source returned"
+        else:
+            for qn in _find_syms(tu[0][1], "qty"):
+                if "raw" not in repr(qn.args[1]):
+                    why = (f"before the unit conversion the data is wrapped into a quantity labelled {qn.args[1]!r} instead of the units it arrived with: "
+                           "the following conversion becomes a no-op (1000 m arrive as 1000 km)")
         sink.check(why is None, "R18", f"convert:{'with' if with_tr else 'without'}-transform", pd,
                    ok="fetch -> transform (if any) -> to_units(input units, check_equivalent) -> check(input info) -> return", bad=why or "")
     # several time entries (e.g. behind StackTime): the re-assembled array keeps the units of the transformed slices
